@@ -39,10 +39,11 @@ def _step_iv(state, op, t=None):
     E = ival.fentries(entries)
     viols = []
     if op[0] == "ins":
-        _, a, b, mode, rp = op
-        new = (a, b, "n")
+        _, a, b, mode, rp = op[:5]
+        lab = op[5] if len(op) > 5 else "n"
+        new = (a, b, lab)
         # the public API accepts Interval objects and plain tuples; 'replace' uses a tuple with a padded label
-        arg = (a, b, " n ") if mode == "replace" else Interval(*new)
+        arg = (a, b, " " + lab + " ") if mode == "replace" else Interval(*new)
         st, r, out = call(t.insertEntry, arg, mode, rp)
         tag = f"insertEntry({tuple(arg)},{mode!r},{rp!r}) on {entries} span ({lo},{hi})"
         after = canon(t)
@@ -53,7 +54,7 @@ def _step_iv(state, op, t=None):
                 viols.append(Viol("changed-on-failure", f"{tag} raised {r!r} but the tier changed to {after}"))
             return None, 1, "degenerate", None, viols
         try:
-            exp, elo, ehi, coll = ival.insert_interval(E, F(lo), F(hi), (F(a), F(b), "n"), mode)
+            exp, elo, ehi, coll = ival.insert_interval(E, F(lo), F(hi), (F(a), F(b), lab), mode)
         except ival.Collision:
             if st != "exc" or not isinstance(r, errors.CollisionError):
                 viols.append(Viol("collision-not-raised", f"{tag}: expected CollisionError, got {st} {r!r}"))
@@ -132,13 +133,14 @@ def _step_pt(state, op, t=None):
     P = ival.fentries(entries)
     viols = []
     if op[0] == "ins":
-        _, a, mode, rp = op
-        new = (a, "n")
-        st, r, out = call(t.insertEntry, (a, " n\n") if mode == "replace" else Point(*new), mode, rp)
+        _, a, mode, rp = op[:4]
+        lab = op[4] if len(op) > 4 else "n"
+        new = (a, lab)
+        st, r, out = call(t.insertEntry, (a, " " + lab + "\n") if mode == "replace" else Point(*new), mode, rp)
         tag = f"PointTier.insertEntry({new},{mode!r},{rp!r}) on {entries} span ({lo},{hi})"
         after = canon(t)
         try:
-            exp, elo, ehi, coll = ival.insert_point(P, F(lo), F(hi), (F(a), "n"), mode)
+            exp, elo, ehi, coll = ival.insert_point(P, F(lo), F(hi), (F(a), lab), mode)
         except ival.Collision:
             if st != "exc" or not isinstance(r, errors.CollisionError):
                 viols.append(Viol("collision-not-raised", f"{tag}: expected CollisionError, got {st} {r!r}"))
@@ -213,6 +215,41 @@ def _check_live(case, ops_fn, step_fn):
     return n, "ok", (op1[0], len(state0[4])), viols
 
 
+# labels are arbitrary text: characters that are special to printf / str.format / regular expressions / the file formats
+SPECIAL = ("%", "50%", "%s", "%d %d", "%(x)s", "{", "}", "{0}", "{x}", "\\", "\\n", "\\1", '"', "'", "a-b", "-", "(", "[a", "a b", "\u00e9", "")
+
+
+def _check_labels(case):
+    """one insertEntry (and the deletion of what it left behind) with special-character labels, against the list model"""
+    kind, old, lab, mode, rp, geo = case
+    if kind == "I":
+        state = ("I", "t%", 0.0, 4.0, ((1.0, 3.0, old),))
+        op = ("ins",) + ((2.0, 4.0), (3.0, 4.0), (1.0, 3.0))[geo] + (mode, rp, lab)
+        succ, n, outcome, nontriv, viols = _step_iv(state, op)
+    else:
+        state = ("P", "t%", 0.0, 4.0, ((1.0, old),))
+        op = ("ins", (1.0, 2.0)[geo % 2], mode, rp, lab)
+        succ, n, outcome, nontriv, viols = _step_pt(state, op)
+    if succ is not None and not viols:
+        for i in range(len(succ[4])):
+            _s, k, _o, _n, v = (_step_iv if kind == "I" else _step_pt)(succ, ("del", i))
+            n += k
+            viols += v
+    return n, outcome, (kind, mode, geo, old == lab), viols
+
+
+def _label_cases():
+    for kind in ("I", "P"):
+        for old in SPECIAL:
+            for lab in SPECIAL:
+                if old == "" and lab == "":
+                    continue
+                for mode in CMODES:
+                    for rp in RMODES:
+                        for geo in ((0, 1, 2) if kind == "I" else (0, 1)):
+                            yield (kind, old, lab, mode, rp, geo)
+
+
 def _prune(state):
     return any(len(e[-1]) > LABCAP for e in state[4])
 
@@ -257,4 +294,9 @@ def parts(tier):
     ps.append(InputPart("live-sequences-points", lambda: ((s0, op1) for s0 in live_pt for op1 in _ops_pt(pvals)(s0)),
                         lambda c: _check_live(c, _ops_pt(pvals), _step_pt),
                         rule="the same for point tiers", bounds={"sequence_length": 2}, chunk=2))
+    ps.append(InputPart("special-character-labels", _label_cases, _check_labels,
+                        rule="one insertEntry (overlapping / touching / identical extent; same / other time) on a one-entry tier, then deleteEntry of "
+                             "every entry left, for every ordered pair of labels from %d texts that contain printf, str.format, regex, escape and "
+                             "quote characters (and the tier name 't%%'), x 3 collision modes x 2 reporting modes, against the list model" % len(SPECIAL),
+                        bounds={"labels": len(SPECIAL), "entries": 1}))
     return ps
